@@ -611,4 +611,209 @@ theorem real_fmtE_double (p : Nat) (neg : Bool) (m : Nat) (e2 : Int) (rest : Lis
   rw [Nat.mod_eq_of_lt (sciDigits_lt p _ _ hd0)] at h
   exact h
 
+/-! ### parse-of-print for `%.<p>g` -/
+
+/-- what follows a number printed without exponent: no digit, no `.`, no `e` / `E` -/
+def NumEnd (rest : List Char) : Prop := ∀ c t, rest = c :: t → isDigit c = false ∧ c ≠ '.' ∧ c ≠ 'e' ∧ c ≠ 'E'
+
+theorem NumEnd.noDigit {rest : List Char} (h : NumEnd rest) : NoDigitHead rest := fun c t hc => (h c t hc).1
+
+theorem exponent_none (rest : List Char) (h : NumEnd rest) : exponent rest = (0, rest) := by
+  cases rest with
+  | nil => rfl
+  | cons c t =>
+    obtain ⟨_, _, h1, h2⟩ := h c t rfl
+    simp [exponent, h1, h2]
+
+theorem real_int (neg : Bool) (c0 : Char) (t0 Y rest : List Char) (k : Int)
+    (hid : ∀ c ∈ c0 :: t0, isDigit c = true)
+    (hY1 : NoDigitHead Y) (hY2 : ∀ t, Y ≠ '.' :: t) (hY3 : exponent Y = (k, rest)) :
+    real (signOf neg ++ c0 :: (t0 ++ Y)) = scaled neg ((c0 :: t0).foldl dval 0) k rest := by
+  have hc0 := hid c0 (by simp)
+  have hsign : splitSign (signOf neg ++ c0 :: (t0 ++ Y)) = (neg, c0 :: (t0 ++ Y)) := by
+    cases neg
+    · exact splitSign_digit _ _ hc0
+    · rfl
+  have hint : digits (c0 :: (t0 ++ Y)) 0 0 = ((c0 :: t0).foldl dval 0, (c0 :: t0).length, Y) := by
+    have := digits_app (c0 :: t0) Y 0 0 hid hY1
+    simpa using this
+  unfold real
+  simp only [hsign, hint]
+  rw [if_neg (by simp)]
+  simp only [hY3]
+
+theorem real_frac (neg : Bool) (c0 : Char) (t0 fp Y rest : List Char) (k : Int)
+    (hid : ∀ c ∈ c0 :: t0, isDigit c = true) (hfd : ∀ c ∈ fp, isDigit c = true)
+    (hY1 : NoDigitHead Y) (hY3 : exponent Y = (k, rest)) :
+    real (signOf neg ++ c0 :: (t0 ++ '.' :: (fp ++ Y)))
+      = scaled neg ((c0 :: t0 ++ fp).foldl dval 0) (k - (fp.length : Int)) rest := by
+  have hc0 := hid c0 (by simp)
+  have hsign : splitSign (signOf neg ++ c0 :: (t0 ++ '.' :: (fp ++ Y))) = (neg, c0 :: (t0 ++ '.' :: (fp ++ Y))) := by
+    cases neg
+    · exact splitSign_digit _ _ hc0
+    · rfl
+  have hint : digits (c0 :: (t0 ++ '.' :: (fp ++ Y))) 0 0
+      = ((c0 :: t0).foldl dval 0, (c0 :: t0).length, '.' :: (fp ++ Y)) := by
+    have := digits_app (c0 :: t0) ('.' :: (fp ++ Y)) 0 0 hid (noDigitHead_cons _ (by decide))
+    simpa using this
+  have hfrac : digits (fp ++ Y) ((c0 :: t0).foldl dval 0) 0 = ((c0 :: t0 ++ fp).foldl dval 0, fp.length, Y) := by
+    rw [digits_app fp Y _ _ hfd hY1, List.foldl_append]; simp
+  unfold real
+  simp only [hsign, hint]
+  rw [if_neg (by simp)]
+  simp only [hfrac, hY3]
+
+/-- the core of `double_` on `ip [. fp] Y`: integer digits, optional fraction, then `Y` (an exponent part or the end) -/
+theorem real_core (neg dot : Bool) (ip fp Y rest : List Char) (k : Int) (hip : ip ≠ [])
+    (hid : ∀ c ∈ ip, isDigit c = true) (hfd : ∀ c ∈ fp, isDigit c = true) (hdot : dot = false → fp = [])
+    (hY1 : NoDigitHead Y) (hY2 : ∀ t, Y ≠ '.' :: t) (hY3 : exponent Y = (k, rest)) :
+    real (signOf neg ++ (ip ++ ((if dot then '.' :: fp else []) ++ Y)))
+      = scaled neg ((ip ++ fp).foldl dval 0) (k - (fp.length : Int)) rest := by
+  obtain ⟨c0, t0, rfl⟩ : ∃ c t, ip = c :: t := by
+    cases ip with
+    | nil => exact absurd rfl hip
+    | cons c t => exact ⟨c, t, rfl⟩
+  cases dot with
+  | false =>
+    have hfp := hdot rfl
+    subst hfp
+    have := real_int neg c0 t0 Y rest k hid hY1 hY2 hY3
+    simpa using this
+  | true =>
+    have := real_frac neg c0 t0 fp Y rest k hid hfd hY1 hY3
+    simpa using this
+
+theorem foldl_zeros (z a : Nat) : (List.replicate z '0').foldl dval a = a * 10 ^ z := by
+  induction z generalizing a with
+  | zero => simp
+  | succ z ih =>
+    simp only [List.replicate_succ, List.foldl_cons]
+    rw [ih]
+    have : dval a '0' = a * 10 := by simp [dval]
+    rw [this, Nat.pow_succ, Nat.mul_assoc, Nat.mul_comm 10]
+
+theorem stripZeros_spec (s : List Char) : ∃ z, s = stripZeros s ++ List.replicate z '0' := by
+  unfold stripZeros
+  refine ⟨(s.reverse.takeWhile (· == '0')).length, ?_⟩
+  have h := List.takeWhile_append_dropWhile (p := (· == '0')) (l := s.reverse)
+  have h2 : s = (s.reverse.dropWhile (· == '0')).reverse ++ (s.reverse.takeWhile (· == '0')).reverse := by
+    rw [← List.reverse_append, h, List.reverse_reverse]
+  have h3 : (s.reverse.takeWhile (· == '0')).reverse = List.replicate (s.reverse.takeWhile (· == '0')).length '0' := by
+    rw [List.eq_replicate_iff]
+    refine ⟨by simp, ?_⟩
+    intro c hc
+    have := List.all_eq_true.mp (List.all_takeWhile (l := s.reverse) (p := (· == '0'))) c (List.mem_reverse.mp hc)
+    simpa using this
+  rw [← h3]
+  exact h2
+
+/-- integer part = the first `j` digits of `s`, fraction = the other digits without trailing zeros -/
+theorem real_split (neg : Bool) (s : List Char) (j : Nat)
+    (hs : ∀ c ∈ s, isDigit c = true) (hj : 1 ≤ j) (hjs : j ≤ s.length) :
+    ∃ mant z : Nat, mant * 10 ^ z = s.foldl dval 0 ∧ z + j ≤ s.length ∧
+      ∀ (Y rest : List Char) (k : Int), NoDigitHead Y → (∀ t, Y ≠ '.' :: t) → exponent Y = (k, rest) →
+      real (signOf neg ++ s.take j ++ (if (stripZeros (s.drop j)).isEmpty then [] else '.' :: stripZeros (s.drop j)) ++ Y)
+        = scaled neg mant (k - ((s.length - j - z : Nat) : Int)) rest := by
+  obtain ⟨z, hz⟩ := stripZeros_spec (s.drop j)
+  generalize hfp : stripZeros (s.drop j) = fp at hz
+  have hfd : ∀ c ∈ fp, isDigit c = true := by
+    intro c hc
+    rw [← hfp] at hc
+    exact hs c (List.mem_of_mem_drop (stripZeros_subset _ c hc))
+  have hlen : fp.length + z = s.length - j := by
+    have := congrArg List.length hz
+    simp at this; omega
+  have hsplit : s = s.take j ++ (fp ++ List.replicate z '0') := by rw [← hz, List.take_append_drop]
+  refine ⟨(s.take j ++ fp).foldl dval 0, z, ?_, by omega, ?_⟩
+  · conv => rhs; rw [hsplit, ← List.append_assoc, List.foldl_append, foldl_zeros]
+  · intro Y rest k hY1 hY2 hY3
+    have hne : s.take j ≠ [] := by
+      intro h
+      have h1 : (s.take j).length = min j s.length := List.length_take
+      rw [h] at h1
+      simp at h1; omega
+    have hcore := real_core neg (!fp.isEmpty) (s.take j) fp Y rest k hne
+      (fun c hc => hs c (List.mem_of_mem_take hc)) hfd (by intro h; simpa using h) hY1 hY2 hY3
+    have hl : ((s.length - j - z : Nat) : Int) = (fp.length : Int) := by omega
+    rw [hl, ← hcore]
+    cases fp <;> simp [List.append_assoc]
+
+theorem numEnd_not_dot {rest : List Char} (h : NumEnd rest) : ∀ t, rest ≠ '.' :: t := by
+  intro t ht
+  exact (h '.' t ht).2.1 rfl
+
+/-- **`double_` on a token printed by `%.<p>g`, every binary64 value**: the lexer consumes exactly the token and
+returns spirit's conversion of a decimal `mant · 10^k` that EQUALS the printed rounding `ds · 10^(ex-(P-1))`,
+`(ds, ex) = sciDigits (P-1) v` (`P` = the precision, 1 for 0): `mant` is `ds` without its `z` trailing zeros
+(which `%g` strips) and `k = ex - (P-1) + z`.  All three layouts of `%g` (plain, `0.000ddd`, exponent). -/
+theorem real_fmtG (p0 : Nat) (neg : Bool) (m : Nat) (e2 : Int) (hm : m ≠ 0)
+    (hv : isDouble (.fin neg m e2) = true) :
+    ∃ mant z : Nat,
+      mant * 10 ^ z = (sciDigits ((if p0 = 0 then 1 else p0) - 1) (Val.fin neg m e2).ratOf.1 (Val.fin neg m e2).ratOf.2).1 ∧
+      ∀ rest : List Char, NumEnd rest → real (fmtG p0 (Val.fin neg m e2) ++ rest) = scaled neg mant
+        ((sciDigits ((if p0 = 0 then 1 else p0) - 1) (Val.fin neg m e2).ratOf.1 (Val.fin neg m e2).ratOf.2).2
+          - (((if p0 = 0 then 1 else p0) - 1 : Nat) : Int) + (z : Int)) rest := by
+  obtain ⟨hn, hd0, hd⟩ := ratOf_bounds neg m e2 hv
+  have hP : 1 ≤ (if p0 = 0 then 1 else p0) := by split <;> omega
+  simp only [fmtG]
+  rw [if_neg hm]
+  generalize (if p0 = 0 then 1 else p0) = P at hP ⊢
+  have hlt := sciDigits_lt (P - 1) (Val.fin neg m e2).ratOf.1 (Val.fin neg m e2).ratOf.2 hd0
+  rw [show P - 1 + 1 = P by omega] at hlt
+  have hb := sciDigits_exp_bounds (P - 1) (Val.fin neg m e2).ratOf.1 (Val.fin neg m e2).ratOf.2
+  have h1 := natDigits_length_le _ 309 hn (by decide)
+  have h2 := natDigits_length_le _ 324 hd (by decide)
+  generalize sciDigits (P - 1) (Val.fin neg m e2).ratOf.1 (Val.fin neg m e2).ratOf.2 = sd at hlt hb ⊢
+  obtain ⟨ds, e⟩ := sd
+  simp only at hlt hb ⊢
+  have hsd : ∀ c ∈ fixedDigits P ds, isDigit c = true := fixedDigits_digits P ds
+  have hslen : (fixedDigits P ds).length = P := fixedDigits_length P ds
+  have hsval : (fixedDigits P ds).foldl dval 0 = ds := by
+    rw [foldl_fixedDigits, Nat.mod_eq_of_lt hlt]; simp
+  by_cases hfix : e ≥ -4 ∧ e < (P : Int)
+  · rw [if_pos hfix]
+    by_cases he0 : e ≥ 0
+    · rw [if_pos he0]
+      obtain ⟨mant, z, hmz, hzj, hreal⟩ := real_split neg (fixedDigits P ds) (e.toNat + 1) hsd (by omega)
+        (by rw [hslen]; omega)
+      refine ⟨mant, z, by rw [hmz, hsval], ?_⟩
+      intro rest hr
+      rw [hreal rest rest 0 hr.noDigit (numEnd_not_dot hr) (exponent_none rest hr), hslen]
+      congr 1
+      omega
+    · rw [if_neg he0]
+      obtain ⟨z, hz⟩ := stripZeros_spec (List.replicate ((-e).toNat - 1) '0' ++ fixedDigits P ds)
+      generalize hfp : stripZeros (List.replicate ((-e).toNat - 1) '0' ++ fixedDigits P ds) = fp at hz
+      have hfd : ∀ c ∈ fp, isDigit c = true := by
+        intro c hc
+        rw [← hfp] at hc
+        rcases List.mem_append.mp (stripZeros_subset _ c hc) with h | h
+        · rw [(List.mem_replicate.mp h).2]; decide
+        · exact hsd c h
+      have hlen : fp.length + z = (-e).toNat - 1 + P := by
+        have := congrArg List.length hz
+        simp [hslen] at this; omega
+      have hval : (['0'] ++ fp).foldl dval 0 * 10 ^ z = ds := by
+        have h0 : (['0'] ++ fp).foldl dval 0 = fp.foldl dval 0 := by simp [dval]
+        rw [h0, ← foldl_zeros, ← List.foldl_append, ← hz, List.foldl_append, foldl_zeros, Nat.zero_mul, hsval]
+      refine ⟨(['0'] ++ fp).foldl dval 0, z, hval, ?_⟩
+      intro rest hr
+      have hcore := real_core neg true ['0'] fp rest rest 0 (by simp) (by intro c hc; rw [List.mem_singleton.mp hc]; decide)
+        hfd (by intro h; exact absurd h (by decide)) hr.noDigit (numEnd_not_dot hr) (exponent_none rest hr)
+      have hshape : signOf neg ++ ['0', '.'] ++ fp ++ rest = signOf neg ++ (['0'] ++ ((if true then '.' :: fp else []) ++ rest)) := by
+        simp [List.append_assoc]
+      rw [hshape, hcore]
+      congr 1
+      omega
+  · rw [if_neg hfix]
+    obtain ⟨mant, z, hmz, hzj, hreal⟩ := real_split neg (fixedDigits P ds) 1 hsd (Nat.le_refl _)
+      (by rw [hslen]; exact hP)
+    refine ⟨mant, z, by rw [hmz, hsval], ?_⟩
+    intro rest hr
+    have hY3 := exponent_expPart e rest (by omega) hr.noDigit
+    rw [List.append_assoc, hreal (expPart e ++ rest) rest e (by unfold expPart; exact noDigitHead_cons _ (by decide))
+      (by intro t ht; unfold expPart at ht; simp at ht) hY3, hslen]
+    congr 1
+    omega
+
 end SharkVerif.Import.Export
